@@ -857,6 +857,27 @@ class Func:
                                     (fail_e if lab == "0" else pass_e).append((sb, tgt))
                             checks.append({"switch_bb": sb, "pass_edges": pass_e, "fail_edges": fail_e,
                                            "on": src_local, "at": sw["sp"]["at"]})
+        # `if r.is_err() { return Err(..) }` / `if r.is_ok() { .. }`: the variant test as a boolean
+        for bi, t2 in self.calls():
+            c = callee_of(t2) or {}
+            if c.get("name") not in ("is_ok", "is_err", "is_some", "is_none") or c.get("krate") != "core" or len(t2["a"]) != 1 or self.is_cleanup(bi):
+                continue
+            a = op_local(t2["a"][0])
+            if a is None:
+                continue
+            srcs = {a}
+            for d in self.defs(a):
+                if d["kind"] == "assign" and d["rv"][0] == "ref":
+                    srcs.add(d["rv"][2][0])
+                elif d["kind"] == "assign" and d["rv"][0] == "use" and op_local(d["rv"][1]) is not None:
+                    srcs.add(op_local(d["rv"][1]))
+            hit = srcs & carriers
+            if not hit:
+                continue
+            positive = c["name"] in ("is_ok", "is_some")
+            for ch in self.bool_checks_of(bi):
+                checks.append({"switch_bb": ch["switch_bb"], "pass_edges": ch["true_edges"] if positive else ch["false_edges"],
+                               "fail_edges": ch["false_edges"] if positive else ch["true_edges"], "on": min(hit), "at": ch["at"], "via": c["name"]})
         return checks
 
     def bool_checks_of(self, call_bb):
